@@ -55,6 +55,11 @@ func (c10) Gen(r *sim.Rand, tier string, run uint64) *sim.Scenario {
 	if r.Chance(1, 6) {
 		sc.Cfg["goodsum"] = 1 // the header checksum and its complement are correct, as in a real dump
 	}
+	if r.Chance(1, 8) {
+		// the caller points the public HeaderOffset field somewhere else (a header it wants
+		// parsed from the HiROM position, say): the bus streams are LoROM windows regardless
+		sc.Cfg["hdroff"] = int64(sim.PickInt(r, 0xFFB0, 0xFFB0, 0x7FB0, 0x0001, 0x81B0, 0x40FFB0))
+	}
 	nb := size >> 15
 	pickAddr := func() int64 {
 		bank := r.Intn(nb)
@@ -767,6 +772,10 @@ func (c c10) Exec(sc *sim.Scenario, env *sim.Env) (viol *sim.Violation) {
 		rom = &snes.ROM{Name: name, Contents: w.img}
 	}
 	env.ObsStr(rom.Name)
+	if h := sc.C("hdroff"); h != 0 {
+		rom.HeaderOffset = uint32(h)
+		st.Probe("header_offset_field_changed")
+	}
 	w.rom = rom
 	streams := map[int64]*c10stream{}
 	nb := size >> 15
